@@ -206,9 +206,10 @@ def zite(c, a, b):
 class Seq:
     """A finite sequence: length `n` (int or z3 Int) and element function `at`."""
 
-    __slots__ = ("n", "_at", "kind", "_ety", "items")
+    __slots__ = ("n", "_at", "kind", "_ety", "items", "width")
 
     def __init__(self, n, at, kind="list", items=None):
+        self.width = None   # zip(*rows): `width` columns when rows is non-empty, none otherwise
         self.n = n
         self._at = at
         self.kind = kind  # 'array' | 'list' | 'tuple' | 'gen'
